@@ -31,6 +31,20 @@ def load_pysyncobj(repo):
     return so, tr
 
 
+_ORIG = {}
+
+
+def restore_runtime():
+    """Undo the clock / randomness patches of the last Sim (components that need real time run after
+    components that used a simulator in the same process)."""
+    if not _ORIG:
+        return
+    so, tr = _ORIG["so"], _ORIG["tr"]
+    so.monotonicTime = _ORIG["so.monotonicTime"]
+    tr.monotonicTime = _ORIG["tr.monotonicTime"]
+    so.random = _ORIG["so.random"]
+
+
 class _RandomShim(object):
     """Stands in for the `random` module inside pysyncobj.syncobj."""
 
@@ -93,6 +107,9 @@ class Sim(object):
 
         def mono():
             return sim.now.get(sim.cur, sim.start_time)
+        if not _ORIG:
+            _ORIG.update({"so": self.so, "tr": self.tr, "so.monotonicTime": self.so.monotonicTime,
+                          "tr.monotonicTime": self.tr.monotonicTime, "so.random": self.so.random})
         self.so.monotonicTime = mono
         self.tr.monotonicTime = mono
         self.so.random = _RandomShim(self)
